@@ -293,8 +293,15 @@ def mutate(src, rnd):
 SOUP = ["script", "S", "{", "}", "(", ")", "if", "flag", "var", "&&", "||", "!", "==", "1", "x", ":", "case", "switch", "while", "do",
         "break", "continue", "poryswitch", '"t"', "moves", "format", ",", "text", "const", "=", "mapscripts", "[", "]", "elif", "else", "default", "value"]
 
+F22_SRC = 'script S { poryswitch(V) { A: nop  _: msgbox("hi") } }\ntext S_Text_0 {"x"}\n'
+
 def gen_C18(rnd, n, tier):
     out = []
+    # the recorded finding F22 stays in the stream: the lint parser always takes the '_' case, whose inline
+    # text clashes with a user text; with -s V=A the program is fine
+    c22 = base_cfg(switches={"V": "A"})
+    out.append(Case(compile_line(c22, F22_SRC), F22_SRC, c22, {"mode": "normal"}, group="F22"))
+    out.append(Case(compile_line(c22.copy(lint=True), F22_SRC), F22_SRC, c22.copy(lint=True), {"mode": "lint"}, group="F22"))
     if tier == "thorough":
         import itertools
         base = base_cfg(switches={"V": "A"})
